@@ -879,6 +879,9 @@ class Grammar(PGFile):
                             # +...)
                             self.productions.extend(rhs_elem.productions)
                             add_productions(rhs_elem.productions)
+                        else:
+                            # Unify non-terminals
+                            production.rhs[idx] = self.nonterminals[rhs_elem.fqn]
                     else:
                         # This should never happen
                         raise AssertionError(
